@@ -21,8 +21,9 @@ SPEC = {
         'effect and never hand out a stored list; T18 clear() resets storage, cell map and ring; T23 a first-seen '
         'set is updated whenever its membership guard passes (update with repeated new keys). Not decided: that the '
         'ring order equals insertion order (pointer arithmetic), sortedvalues/__reversed__ arithmetic, value-level '
-        'equality with the list model for every history.'),
-    'decided': ['T1 override closure', 'T2 lock-step of value lists and cells', 'T3 one-pass arguments',
+        'equality with the list model for every history.'
+        ' T26: __eq__ takes no per-key decision on a None-defaulted .get() result. T17.init: the constructor loads keyword arguments through update (single values), not update_extend.'),
+    'decided': ['no presence decision on .get() None', 'constructor kwargs delegation', 'T1 override closure', 'T2 lock-step of value lists and cells', 'T3 one-pass arguments',
                 'T4 no discarded comparison', 'T5 copy protocol', 'T8 observer purity / no stored list leaked',
                 'T18 clear resets everything', 'T23 first-seen idiom'],
     'declined': ['ring pointer arithmetic / order of iteration', 'reads == list model for every history'],
